@@ -62,8 +62,20 @@ def plan(tier):
 
 
 def _other(cfg):
-  """A second configuration related to cfg (for diffing APIs)."""
+  """A second configuration related to cfg (for diffing APIs): one value changed, and tags
+  added to / removed from arguments that already carry tags."""
   o = copy.deepcopy(cfg)
+  for b in C.identity_objects(o, include_internals=False).get('buildable', {}).values():
+    for k, ts in list(b.__argument_tags__.items()):
+      if ts and isinstance(k, str):
+        try:
+          extra = [t for t in vtags.ALL if t not in ts]
+          if extra:
+            fdl.add_tag(b, k, extra[0])
+          if len(ts) > 1:
+            fdl.remove_tag(b, k, sorted(ts, key=lambda t: t.__name__)[0])
+        except Exception:  # pylint: disable=broad-except
+          pass
   for k in list(o.__arguments__):
     if isinstance(k, str):
       try:
@@ -117,6 +129,10 @@ def entry_points():
   add('codegen.new_codegen(options)', lambda cfg: new_codegen.new_codegen(
       cfg, max_expression_complexity=1, include_history=True))
   add('codegen.auto_config_codegen', lambda cfg: ac_api.auto_config_codegen(cfg))
+  add('codegen.new_codegen(sub_fixtures)',
+      lambda cfg: new_codegen.new_codegen(cfg, sub_fixtures=_sub_fixtures(cfg)))
+  add('codegen.auto_config_codegen(sub_fixtures)',
+      lambda cfg: ac_api.auto_config_codegen(cfg, sub_fixtures=_sub_fixtures(cfg)))
   add('codegen.legacy_codegen_dot_syntax', lambda cfg: legacy_codegen.codegen_dot_syntax(cfg))
   add('codegen.fiddler_from_diff',
       lambda old, new: codegen_diff.fiddler_from_diff(diffing.build_diff(old, new), old=old), ['old', 'new'])
@@ -125,7 +141,7 @@ def entry_points():
   add('select.get', lambda cfg: list(fsel.select(cfg, kinds.node, check_nonempty=False).get('a')))
   add('select.tag.iterate', lambda cfg: list(fsel.select(cfg, tag=vtags.TagA, check_nonempty=False)))
   add('tagging.list_tags', lambda cfg: ftag.list_tags(cfg, add_superclasses=True))
-  add('tagging.get_tags', lambda cfg: [ftag.get_tags(cfg, k) for k in list(cfg.__arguments__)[:2]
+  add('tagging.get_tags', lambda cfg: [fdl.get_tags(cfg, k) for k in list(cfg.__arguments__)[:2]
                                        if isinstance(k, str)])
   add('tagging.materialize_tags', lambda cfg: ftag.materialize_tags(cfg))
   add('tagging.materialize_tags(tags,clear)',
@@ -161,15 +177,21 @@ def _one_kwarg(cfg):
   return {}
 
 
+def _sub_fixtures(cfg):
+  bs = [b for b in C.identity_objects(cfg, include_internals=False).get('buildable', {}).values()
+        if b is not cfg and type(b) in (fdl.Config, fdl.Partial)]
+  return {f'sub_{i}': b for i, b in enumerate(bs[:2])}
+
+
 def _some_nodes(cfg):
   bs = list(C.identity_objects(cfg, include_internals=False).get('buildable', {}).values())
   return [b for b in bs if b is not cfg][:1]
 
 
 MINIMUMS = {
-    'quick': {'evaluations': 8000, 'contract_evaluations': 8000, 'entry_points_with_evaluations': 57,
+    'quick': {'evaluations': 8000, 'contract_evaluations': 8000, 'entry_points_with_evaluations': 59,
               'normal_returns': 5000},
-    'thorough': {'evaluations': 200000, 'entry_points_with_evaluations': 57, 'repo_test_contract_evaluations': 500},
+    'thorough': {'evaluations': 200000, 'entry_points_with_evaluations': 59, 'repo_test_contract_evaluations': 150},
 }
 
 
